@@ -56,7 +56,7 @@ Inductive obs :=
 | ODetail (st : N) (err : bool)
 | OSvc (ski : bytes) (tr : bool)
 (* snapshot of the canonical SKI's record after the operation *)
-| OSnap (tr : bool) (st : N) (has_counter : bool) (has_conn : bool).
+| OSnap (tr : bool) (st : N) (has_counter : bool) (has_conn : bool) (nrec : N) (npaired : N).
 
 (* entry point numbering used by the regenerated table *)
 Definition fn_of (o : op) : N :=
@@ -146,7 +146,9 @@ Definition snap (h : hub) (canon : bytes) : obs :=
   let s := get_svc h canon in
   OSnap (trusted s) (pstate s)
         (match alookup canon (counters h) with Some _ => true | None => false end)
-        (match alookup canon (conns h) with Some _ => true | None => false end).
+        (match alookup canon (conns h) with Some _ => true | None => false end)
+        (* the whole registry: number of service records and of paired ones *)
+        (N.of_nat (length (svcs h))) (N.of_nat (n_trusted h)).
 
 (* what the harness observes for one operation: its callbacks and calls on the fake
    connection, then the snapshot of the canonical record *)
@@ -167,8 +169,8 @@ Definition obs_eqb (a b : obs) : bool :=
   | OMdnsAnnounce, OMdnsAnnounce => true
   | ODetail s e, ODetail s' e' => N.eqb s s' && Bool.eqb e e'
   | OSvc k t, OSvc k' t' => bytes_eqb k k' && Bool.eqb t t'
-  | OSnap a b c d, OSnap a' b' c' d' =>
-      Bool.eqb a a' && N.eqb b b' && Bool.eqb c c' && Bool.eqb d d'
+  | OSnap a b c d e f, OSnap a' b' c' d' e' f' =>
+      Bool.eqb a a' && N.eqb b b' && Bool.eqb c c' && Bool.eqb d d' && N.eqb e e' && N.eqb f f'
   | _, _ => false
   end.
 
